@@ -5,7 +5,7 @@
 From Coq Require Import List ZArith Bool Sorting.Permutation.
 From FV Require Import Base OutputM Sched.
 From FV Require Info.
-From FVP Require Import Adapters_proofs Sched_proofs Confluence_proofs OutputM_proofs.
+From FVP Require Import Adapters_proofs Sched_proofs Confluence_proofs OutputM_proofs Series_proofs.
 From FVP Require Info_proofs.
 Import ListNotations.
 Open Scope Z_scope.
@@ -76,6 +76,14 @@ Theorem C05_delivery_independent_of_later_publications :
     interpolate (h1 ++ h2) time = interpolate h1 time.
 Proof. intros A h1 h2 time. apply interpolate_prefix. Qed.
 
+(** ... instantiated for a time-stepped source of a valid composition: once it has published at or beyond the
+    requested time after [m] updates (which C01 guarantees at every pull), the publication delivered is the same
+    however many further updates [M >= m] another schedule has already performed. *)
+Theorem C05_delivery_schedule_independent :
+  forall cs s m M r, wf cs -> is_time cs s = true -> (m <= M)%nat -> r <= tfun cs s m ->
+    interpolate (pubs cs s M) r = interpolate (pubs cs s m) r.
+Proof. intros cs s m M r W Ts. apply delivery_schedule_independent; assumption. Qed.
+
 (** Exchanged metadata (link creation order = order in which the consumers of an output exchange): when the
     producer declares its grid, units, time and metadata, every permutation of the consumers succeeds alike,
     every consumer receives the same info and the producer ends with the same info (C07_fanout_order). *)
@@ -126,4 +134,5 @@ Print Assumptions C05_list_order_is_a_priority_order.
 Print Assumptions C05_outcome_class.
 Print Assumptions C05_request_is_a_function_of_the_update_index.
 Print Assumptions C05_delivery_independent_of_later_publications.
+Print Assumptions C05_delivery_schedule_independent.
 Print Assumptions C05_metadata_order_independent.
